@@ -58,6 +58,7 @@ class Ob:
     backend: str = 'minisat'          # minisat | cadical | kissat
     assumptions: tuple = ()
     include_src: bool = True
+    small: bool = False               # on refutation re-solve with -DVERIF_SMALL for a small counterexample
 
 
 @dataclass
@@ -347,22 +348,22 @@ def solve(ctx: Ctx, ob: Ob) -> Result:
         if cur_c is None:
             res.wall_s = time.time() - t0
             return res
-        cv = [cur_c if x == cur else x for x in base] + ['--cover', 'cover', '--json-ui', '--verbosity', '8']
-        cv = [x for x in cv if x not in ob.checks and x != '--no-unwinding-assertions']
+        cv = [cur_c if x == cur else x for x in base] + ['--json-ui', '--verbosity', '8']
+        cv = [x for x in cv if x not in ob.checks and x != '--no-unwinding-assertions'] + ['--no-unwinding-assertions']
         rc, out, _ = run(cv, ob.timeout)
         res.cmds.append(' '.join(cv))
         if rc == -999:
             res.status, res.detail = 'timeout', 'cover pass exceeded %ds' % ob.timeout
         else:
-            _, _, _, errs, s2, goals = parse_cbmc_json(out)
+            _, _, failedc, errs, s2, _ = parse_cbmc_json(out)
             res.solver_s += s2
-            goals = goals or []
-            # inlining duplicates cover statements (one copy may be unreachable): a condition counts as
-            # satisfied when any goal with the same text is satisfied
-            by = {}
-            for g in goals:
-                d = g.get('description', '')
-                by[d] = by.get(d, False) or g.get('status') == 'satisfied'
+            allc = re.findall(r'"description": "(COVER [^"]*)"', out)
+            # a cover witness is satisfied iff its negation-assertion FAILS; inlining may duplicate a
+            # statement (one copy unreachable): satisfied when any copy is
+            by = {d: False for d in allc}
+            for (_, d, _, _) in failedc:
+                if d.startswith('COVER '):
+                    by[d] = True
             res.covers_total = len(by)
             res.covers_sat = sum(1 for v in by.values() if v)
             res.covers_failed = [d for d, v in by.items() if not v]
@@ -388,6 +389,18 @@ def solve(ctx: Ctx, ob: Ob) -> Result:
             k = out.find('** Results')
             res.trace_text = out[k:][-20000:] if k >= 0 else out[-20000:]
         res.failed = [(a_, b_, c_, None) for (a_, b_, c_, _) in res.failed]
+        if ob.small:
+            cur_s = build(ctx, ob, res, 'small', ('VERIF_SMALL',))
+            if cur_s is not None:
+                trs = [cur_s if x == cur else x for x in tr]
+                rc, out, _ = run(trs, max(ob.timeout, 300))
+                if rc != -999:
+                    _, _, failed3, _, _, _ = parse_cbmc_json(out)
+                    for f in failed3:
+                        if f[3]:
+                            res.trace_inputs = extract_inputs(f[3])
+                            res.trace_text = 'small-scope re-solve (-DVERIF_SMALL) reproduced the refutation; inputs below are from it\n' + res.trace_text
+                            break
         if ob.native or ob.native_custom:
             try:
                 from engine import native
